@@ -70,7 +70,7 @@ def hgStep (h : HGState) (toks : List String) : HGState × List String :=
   | ["ins", n, id] =>
     match n.toNat?.bind (h.nodes.get? ·), h.evs.get? id with
     | some s, some e =>
-      match s.admit e with
+      match s.admission e with
       | some r => (h, [s!"O rej {r.toString}"])
       | none => ({ h with nodes := h.nodes.insert n.toNat! (s.insert e) }, ["O acc"])
     | _, _ => (h, ["O bad-op"])
